@@ -5,6 +5,12 @@ VERIF = os.path.dirname(os.path.dirname(os.path.abspath(__file__)))
 props = {json.loads(l)["id"]: json.loads(l) for l in open(os.path.join(VERIF, "properties.jsonl"))}
 
 CHECKS = {
+ "C06": dict(cat="exploration", technique="property-based mutation testing of BlockFilters answers (13 typed mutators x sender role x batch position) with an authenticity oracle on the accepted prefix and the reference index after an honest finish",
+   text="With a quorum of honest proven peers (optionally one more proven peer serving wrong filter hashes) an in-flight GetBlockFilters is answered with mutated filter bytes, shifted start, unequal counts or substituted block hashes by the asked, another or an unproven peer. The filtered height may only advance over filters identical to the chain's, listed hashes of blocks with script activity must be the chain's block at that height, and after an honest finish the reference index must hold.",
+   note="Known finding D4 (block hashes unauthenticated; 6 signatures) tolerated and ends the history.", ref="6/C06"),
+ "C02": dict(cat="exploration", technique="property-based mutation testing of SendBlock / SendBlocksProof / SendTransactionsProof answers (typed mutators, v0 and v1 shapes, three sender roles) with a genuineness oracle over everything the RPC serves and the reference index after an honest finish",
+   text="With GetBlocks / GetBlocksProof / GetTransactionsProof in flight (mid-sync, fetch_header / fetch_transaction issued), 1..4 attacks answer a request honestly, unsolicited, or with one of 24 mutations, from the asked, another or an unproven peer. After every attack every cell, history entry, header and (transaction, block) pair served must be byte-identical to the proven chain's; after finishing the sync honestly the reference index must hold (a forged body that was indexed shows up as a phantom or missing cell).",
+   note="S5: witnesses of fetched transactions cannot be authenticated by the protocol. Fixed by this check: D1 (SendBlock body not checked against the header).", ref="6/C02"),
  "C12": dict(cat="exploration", technique="stateful property-based testing with forged-header generators (re-mined, self-consistent commitments) and a ground-truth registry; invariant over the history of the stored (tip, total difficulty, last-N) triple",
    text="Histories over up to 4 honest / deviating peers on a main chain and a competing fork: answers in any order, growth, restarts, children of the proven header with forged chain roots (inflated, deflated, wrong MMR root, other parent), proofs with a forged last header. After every event a change of the stored triple must be to a currently proven header, strictly heavier, with the TRUE cumulative difficulty, and last-N must be the true ancestor chain; restart reproduces the triple; finally honest growth must be able to move the tip.",
    note="Forged headers pass PoW and their own chain-root commitment by construction. Fixed by this check: D8 (child fast path), D24 (last-N merge).", ref="6/C12"),
